@@ -3,4 +3,5 @@ pub mod parsers;
 pub mod peer;
 pub mod reader;
 pub mod scan;
+pub mod stream;
 pub mod writer;
